@@ -175,9 +175,9 @@ def gen_history(rng, k, n):
         elif r < 0.48 and c not in eofs:
             acts.append(("ext", c, 1 if rng.random() < 0.85 else rng.choice([0, 2, 3]), payload))
         elif r < 0.68:
-            acts.append(("recv", c, rng.choice([1, 1, 2, 3, 7, 50])))
+            acts.append(("recv", c, rng.choice([0, 1, 1, 2, 3, 7, 50])))
         elif r < 0.83:
-            acts.append(("recverr", c, rng.choice([1, 2, 3, 7, 50])))
+            acts.append(("recverr", c, rng.choice([0, 1, 2, 3, 7, 50])))
         elif r < 0.90:
             acts.append(("combine", c, rng.choice([1, 1, 0])))
         elif r < 0.94:
@@ -354,6 +354,21 @@ def race_runs(ctx):
 
 # ------------------------------------------------------------------ oracle 2: end to end
 def e2e(ctx, nchan, nbytes, compress, rekey, label, id_offset=1, victim=False, server_offset=0):
+    """whatever the real transports do ends in a verdict: an exception out of a paramiko call on the harness thread (a
+    session that died, a channel that cannot be opened) is a failing input of the end-to-end oracle, not a crash"""
+    try:
+        _e2e(ctx, nchan, nbytes, compress, rekey, label, id_offset, victim, server_offset)
+    except InfraError:
+        raise
+    except Exception as e:
+        site = exc_site(e)
+        if site.endswith("@None"):
+            raise
+        ctx.fail("e2e-exception:" + site, {"e2e": label, "channels": nchan, "bytes-per-channel": nbytes,
+                                           "compress": compress, "rekeys": rekey}, repr(e)[:300])
+
+
+def _e2e(ctx, nchan, nbytes, compress, rekey, label, id_offset=1, victim=False, server_offset=0):
     import paramiko
     from tests._loop import LoopSocket
 
@@ -421,6 +436,7 @@ def e2e(ctx, nchan, nbytes, compress, rekey, label, id_offset=1, victim=False, s
             cchans.append(c)
             schans.append(s)
         got = [{"out": [], "err": [], "status": None} for _ in plans]
+        zero_reads = []
 
         def writer(i):
             try:
@@ -442,7 +458,14 @@ def e2e(ctx, nchan, nbytes, compress, rekey, label, id_offset=1, victim=False, s
                 c = cchans[i]
                 f = c.recv if stream == "out" else c.recv_stderr
                 size = plans[i]["sizes"][0 if stream == "out" else 1]
+                ready = c.recv_ready if stream == "out" else c.recv_stderr_ready
+                probe = (i + (0 if stream == "out" else 1)) % 2 == 0
                 while True:
+                    if probe and ready():
+                        z = f(0)        # like socket.recv(0): nothing handed out, nothing consumed
+                        if z:
+                            zero_reads.append((i, stream, len(z)))
+                            got[i][stream].append(z)
                     x = f(size)
                     if not x:
                         break
@@ -562,6 +585,9 @@ def e2e(ctx, nchan, nbytes, compress, rekey, label, id_offset=1, victim=False, s
         if vic is not None and any(b"STRAY" in x for g in got for x in g["out"] + g["err"]):
             ctx.fail("e2e-dead-channel-data-misdelivered", {"e2e": label}, "data addressed to the closed channel showed "
                      "up in the stream read from another channel")
+        for i, stream, n in zero_reads[:1]:
+            ctx.fail("recv-returns-more-than-nbytes", {"e2e": label, "channel": i, "stream": stream},
+                     "recv(0) returned %d bytes" % n)
         if not errors:
             for i, p in enumerate(plans):
                 out_sent = b"".join(c for s, c in p["writes"] if s == "out")
@@ -658,6 +684,18 @@ def exit_status_wire(ctx):
 
 
 def e2e_status_sweep(ctx):
+    try:
+        _e2e_status_sweep(ctx)
+    except InfraError:
+        raise
+    except Exception as e:
+        site = exc_site(e)
+        if site.endswith("@None"):
+            raise
+        ctx.fail("e2e-exception:" + site, {"e2e": "status sweep"}, repr(e)[:300])
+
+
+def _e2e_status_sweep(ctx):
     """concurrent sessions on one transport pair, one boundary status each: recv_exit_status() == status sent"""
     import paramiko
     from tests._loop import LoopSocket
@@ -802,6 +840,12 @@ def run(ctx):
                     ctx.disagree("channel history step", {"channels": k, "history": [req_of(a) for a in acts[: i + 1]]},
                                  m, r)
                     break
+        # no read hands out more than it was asked for (sizes include 0, exactly-buffered and more-than-buffered)
+        for a, r in zip(acts, impl):
+            if a[0] in ("recv", "recverr") and r.startswith("data:") and r != "data:-" and len(r[5:]) // 2 > a[2]:
+                ctx.fail("recv-returns-more-than-nbytes", {"channels": k, "history": [req_of(x) for x in acts]},
+                         "%s %d %d returned %d bytes" % (a[0], a[1], a[2], len(r[5:]) // 2))
+                break
         # model-independent oracle on the same run: per channel, without any combine switch: read ++ buffered == sent
         lost = any(r == "unknown" for r in impl)
         for c in range(k):
